@@ -4,13 +4,14 @@ use crate::support::*;
 use educe::Educe;
 use core::cmp::Ordering;
 #[derive(Educe)]
-#[educe(PartialEq, PartialOrd, Eq)]
-pub enum T { Some(u8, bool, &'static u8), C }
-
-pub fn values() -> Vec<T> { vec![T::Some(0, false, &3u8), T::Some(0, false, &200u8), T::Some(0, true, &3u8), T::Some(0, true, &200u8), T::Some(100, false, &3u8), T::Some(100, false, &200u8), T::Some(100, true, &3u8), T::Some(100, true, &200u8), T::Some(200, false, &3u8), T::Some(200, false, &200u8), T::Some(200, true, &3u8), T::Some(200, true, &200u8), T::C] }
-pub fn show(x: &T) -> String { #[allow(unused_variables)] match x { T::Some(p0, p1, p2) => format!("Some({},{},{})", sv(p0), sv(p1), sv(p2)), T::C => format!("C()") } }
-pub fn o_disc(x: &T) -> i128 { match x { T::Some(_, _, _) => 0, T::C => 1 } }
-pub fn o_pcmp(a: &T, b: &T) -> Option<Ordering> { match (a, b) { (T::Some(a0, a1, a2), T::Some(b0, b1, b2)) => { match ::core::cmp::PartialOrd::partial_cmp(a0, b0) { Some(Ordering::Equal) => (), x => return x } match ::core::cmp::PartialOrd::partial_cmp(a1, b1) { Some(Ordering::Equal) => (), x => return x } match ::core::cmp::PartialOrd::partial_cmp(a2, b2) { Some(Ordering::Equal) => (), x => return x } Some(Ordering::Equal) }, (T::C, T::C) => {  Some(Ordering::Equal) }, _ => Some(o_disc(a).cmp(&o_disc(b))) } }
+#[repr(isize)]
+#[educe(Eq, PartialEq, Ord)]
+pub enum T { None, Unit() = 1000 }
+impl PartialOrd for T { fn partial_cmp(&self, o: &Self) -> Option<Ordering> { Some(::core::cmp::Ord::cmp(self, o)) } }
+pub fn values() -> Vec<T> { vec![T::None, T::Unit()] }
+pub fn show(x: &T) -> String { #[allow(unused_variables)] match x { T::None => format!("None()"), T::Unit() => format!("Unit()") } }
+pub fn o_disc(x: &T) -> i128 { match x { T::None => 0, T::Unit() => 1000 } }
+pub fn o_cmp(a: &T, b: &T) -> Ordering { match (a, b) { (T::None, T::None) => {  Ordering::Equal }, (T::Unit(), T::Unit()) => {  Ordering::Equal }, _ => o_disc(a).cmp(&o_disc(b)) } }
 #[repr(C)] pub struct Wrap { pub pre: u8, pub x: T, pub post: [u8; 9] }
 pub fn wrap(i: usize, n: u8) -> Wrap { Wrap { pre: n, x: values().swap_remove(i), post: [n; 9] } }
-pub fn run(out: &mut Out) { let vs = values(); for (i, a) in vs.iter().enumerate() { for (j, b) in vs.iter().enumerate() { let e = o_pcmp(a, b); let g = ::core::cmp::PartialOrd::partial_cmp(a, b); out.check(g == e, "ordlayout_13", "partial_cmp", || format!("partial_cmp({}, {}) = {:?} expected {:?}", show(a), show(b), g, e)); for n in [0u8, 1, 0x7f, 0x80, 0xff] { let wa = wrap(i, n); let wb = wrap(j, !n); let g = ::core::cmp::PartialOrd::partial_cmp(&wa.x, &wb.x); let e = o_pcmp(a, b); out.check(g == e, "ordlayout_13", "cmp_neighbours", || format!("cmp({}, {}) with neighbour bytes {} = {:?} expected {:?}", show(a), show(b), n, g, e)); } } } }
+pub fn run(out: &mut Out) { let vs = values(); for (i, a) in vs.iter().enumerate() { for (j, b) in vs.iter().enumerate() { let e = o_cmp(a, b); let g = ::core::cmp::Ord::cmp(a, b); out.check(g == e, "ordlayout_13", "cmp", || format!("cmp({}, {}) = {:?} expected {:?}", show(a), show(b), g, e)); for n in [0u8, 1, 0x7f, 0x80, 0xff] { let wa = wrap(i, n); let wb = wrap(j, !n); let g = ::core::cmp::Ord::cmp(&wa.x, &wb.x); let e = o_cmp(a, b); out.check(g == e, "ordlayout_13", "cmp_neighbours", || format!("cmp({}, {}) with neighbour bytes {} = {:?} expected {:?}", show(a), show(b), n, g, e)); } } } }
